@@ -59,11 +59,7 @@ func main() {
 			os.Exit(3)
 		}
 	}
-	if runtime.GOMAXPROCS(0) != 1 || debug.SetGCPercent(-1) != -1 {
-		tr.Fail = "simnode must run with GOMAXPROCS=1 GOGC=off"
-		emit()
-		os.Exit(3)
-	}
+	gcOff := debug.SetGCPercent(-1) == -1
 	in, err := io.ReadAll(os.Stdin)
 	if err != nil {
 		tr.Fail = "read job: " + err.Error()
@@ -78,6 +74,14 @@ func main() {
 	}
 	tr.ID = j.ID
 	in = nil
+	if runtime.GOMAXPROCS(0) != 1 || (!gcOff && !j.GC) {
+		tr.Fail = "simnode must run with GOMAXPROCS=1 GOGC=off"
+		emit()
+		os.Exit(3)
+	}
+	if j.GC {
+		debug.SetGCPercent(100)
+	}
 
 	verifMapSeed(j.MapSeed, true)
 	h := newHistory(j.CacheSize)
@@ -216,6 +220,9 @@ func p2pConnStr(c connlist.Peer2PeerConnection) string {
 
 func stepList(st *job.Step, ev *job.Event, keep bool) {
 	opts := []connlist.ConnlistAnalyzerOption{connlist.WithLogger(quietLogger()), connlist.WithMuteErrsAndWarns()}
+	if st.Loud {
+		opts = []connlist.ConnlistAnalyzerOption{connlist.WithLogger(logger.NewDefaultLogger())}
+	}
 	if st.Fmt != "" {
 		opts = append(opts, connlist.WithOutputFormat(st.Fmt))
 	}
@@ -306,6 +313,9 @@ func diffConnStr(a diff.AllowedConnectivity) string {
 
 func stepDiff(st *job.Step, ev *job.Event, keep bool) {
 	opts := []diff.DiffAnalyzerOption{diff.WithLogger(quietLogger()), diff.WithArgNames("dir1", "dir2")}
+	if st.Loud {
+		opts = []diff.DiffAnalyzerOption{diff.WithLogger(logger.NewDefaultLogger()), diff.WithArgNames("dir1", "dir2")}
+	}
 	if st.Fmt != "" {
 		opts = append(opts, diff.WithOutputFormat(st.Fmt))
 	}
